@@ -56,7 +56,7 @@ impl CodePointSet {
         CodePointSet { ivs }
     }
 
-//@@EXTRACTED@@
+//@@EXTRACTED:inverted@@
 }
 
 } // verus!
